@@ -27,9 +27,10 @@ package object
 //@ ensures[C16.eq.readonly] ls.compareActive == old(ls.compareActive)
 
 //@ func (*List).Compare
-//@ props C03 C15
+//@ props C03 C15 C16
 //@ requires ls != nil && other != nil && ref(other) != nil
 //@ ensures[C15.cmp.range] result1 == nil ==> oneof(result0, -1, 0, 1)
+//@ ensures[C16.sort.cmp.range] result1 == nil ==> oneof(result0, -1, 0, 1)
 //@ callpre[C03.cycle.guard] Compare: ls.compareActive && !old(ls.compareActive)
 //@ ensures[C03.cycle.restore] ls.compareActive == old(ls.compareActive)
 
